@@ -93,11 +93,12 @@ def showRet (r : Ret) : String :=
 
 /-- An SDS subscriber (stream `sds`). -/
 structure Sub where
-  id   : Nat
-  res  : Res
-  live : Bool := true
-  n    : Nat := 0         -- responses received
-  last : String := ""     -- content of the last response
+  id    : Nat
+  res   : String             -- subset of "wr" it is subscribed to ("" after an xDS unsubscribe)
+  state : String := "live"   -- live | gone (closed by the client) | closed (ended by the server)
+  n     : Nat := 0           -- responses received
+  lastW : String := ""       -- last `default` content
+  lastR : String := ""       -- last `ROOTCA` content
 
 structure DState where
   sys  : Sys := {}
@@ -105,6 +106,8 @@ structure DState where
   tick : Int := 0        -- logical clock: one tick per op
   subs : List Sub := []  -- stream `sds`, in subscription order (ids increase)
   sds  : Bool := false   -- the case is an `sds` case
+  cafail : Nat := 0      -- stream `sds`: CA calls that still have to fail
+  caroot : Nat := 0      -- stream `sds`: root the CA signs with
 
 def newBucket (before after : State) : String :=
   if after.queue.length > before.queue.length then
@@ -198,7 +201,10 @@ def stepConc (toks : List String) : String :=
       let certs := rets.foldr (fun r acc => match r.cert with | some kk => insertNat kk acc | none => acc) []
       let ks := if keys.isEmpty then "-" else ",".intercalate (keys.map toString)
       let cs := if certs.isEmpty then "-" else ",".intercalate (certs.map toString)
-      s!"calls={y.st.caCalls} errs={errs} keys={ks} certs={cs}"
+      let wl := match y.st.workload with
+        | none => "-"
+        | some it => toString it.key
+      s!"calls={y.st.caCalls} errs={errs} keys={ks} certs={cs} q={y.st.queue.length} ev={evTok y.st.events} wl={wl}"
     | _, _, _ => "bad-op"
   | _ => "bad-op"
 
@@ -231,47 +237,69 @@ def stepTimer (toks : List String) : String :=
 subscriber of that resource; a pushed subscriber re-requests it with GenerateSecret (sequentially here:
 by `single_flight_*` the outcome does not depend on the interleaving). -/
 
-def sdsCA : CAOut := .ok 3600000000000 0 []
-
 def descRet (res : Res) (r : Ret) : String :=
   match res with
   | .workload => s!"key={optNat r.key},cert={optNat r.cert}"
   | .root => "root=" ++ (match r.root with | some l => rootsTok l | none => "-")
 
-/-- One GenerateSecret by a subscriber; returns the new driver state and the answer. -/
-def sdsGen (d : DState) (res : Res) : DState × String :=
-  let y := seqOp d.sys d.next (.gen res) { ca := sdsCA, now := d.tick * 1000000 }
+/-- One GenerateSecret by a subscriber; returns the new driver state and the answer (`none`: error). -/
+def sdsGen (d : DState) (res : Res) : DState × Option String :=
+  let ca : CAOut := if d.cafail > 0 then .err else .ok 3600000000000 d.caroot []
+  let y := seqOp d.sys d.next (.gen res) { ca := ca, now := d.tick * 1000000 }
   let desc := match y.procs d.next with
-    | .gDone ret => if ret.ok then descRet res ret else "error"
-    | _ => "stuck"
-  ({ d with sys := y, next := d.next + 1, tick := d.tick + 1 }, desc)
+    | .gDone ret => if ret.ok then some (descRet res ret) else none
+    | _ => some "stuck"
+  let called := y.st.caCalls > d.sys.st.caCalls
+  ({ d with sys := y, next := d.next + 1, tick := d.tick + 1,
+            cafail := if called && d.cafail > 0 then d.cafail - 1 else d.cafail }, desc)
 
 def evRes : Ev → Res
   | .rootca => .root
   | .workload _ => .workload
 
-/-- Deliver one callback: every live subscriber of its resource re-requests. -/
+def resLetter : Res → String
+  | .workload => "w"
+  | .root => "r"
+
+def hasRes (sb : Sub) (res : Res) : Bool := (sb.res.splitOn (resLetter res)).length > 1
+
+def setSub (d : DState) (id : Nat) (f : Sub → Sub) : DState :=
+  { d with subs := d.subs.map fun x => if x.id == id then f x else x }
+
+/-- Deliver one callback: every live subscriber of its resource re-requests it; a failing re-request
+    ends that subscriber's stream. -/
 def sdsPush (d : DState) (res : Res) : DState :=
   d.subs.foldl (fun acc sb =>
-    if sb.live && sb.res == res then
+    if sb.state == "live" && hasRes sb res then
       let (acc', desc) := sdsGen acc res
-      { acc' with subs := acc'.subs.map fun x => if x.id == sb.id then { x with n := x.n + 1, last := desc } else x }
+      match desc with
+      | some t => setSub acc' sb.id fun x =>
+          match res with
+          | .workload => { x with n := x.n + 1, lastW := t }
+          | .root => { x with n := x.n + 1, lastR := t }
+      | none => setSub acc' sb.id fun x => { x with state := "closed" }
     else acc) d
 
 def sdsShow (d : DState) (ev : String) : String :=
   let cs := d.subs.map fun sb =>
-    s!"c{sb.id}:{if sb.res == .workload then "w" else "r"}:{if sb.live then "live" else "gone"}:n={sb.n}:{sb.last}"
+    let last := sb.lastW ++ (if sb.lastR.isEmpty then "" else (if sb.lastW.isEmpty then "" else "|") ++ sb.lastR)
+    s!"c{sb.id}:{if sb.res.isEmpty then "-" else sb.res}:{sb.state}:n={sb.n}:{if last.isEmpty then "-" else last}"
   let wl := match d.sys.st.workload with
     | none => "-"
     | some it => toString it.key
   " ".intercalate ([s!"ev={ev}"] ++ cs ++ [s!"wl={wl} ca={d.sys.st.caCalls}"])
 
-/-- After an op: deliver the callbacks it produced (in order), then print. -/
+/-- Deliver the callbacks produced since `seen`, then those produced by the re-requests, ... -/
+def sdsRounds : Nat → Nat → DState → String → DState × String
+  | 0, _, d, tok => (d, tok)
+  | fuel + 1, seen, d, tok =>
+    let evs := d.sys.st.events.drop seen
+    if evs.isEmpty then (d, if tok.isEmpty then "-" else tok) else
+    let d1 := evs.foldl (fun acc e => sdsPush acc (evRes e)) d
+    sdsRounds fuel d.sys.st.events.length d1 (tok ++ evTok evs)
+
 def sdsSettle (before : List Ev) (d : DState) : DState × String :=
-  let evs := d.sys.st.events.drop before.length
-  let d1 := evs.foldl (fun acc e => sdsPush acc (evRes e)) d
-  let evs2 := d1.sys.st.events.drop d.sys.st.events.length
-  let tok := evTok evs ++ (if evs2.isEmpty then "" else "+" ++ evTok evs2)
+  let (d1, tok) := sdsRounds 7 before.length d ""
   (d1, sdsShow d1 tok)
 
 def stepSds (d : DState) (toks : List String) : DState × String :=
@@ -284,17 +312,32 @@ def stepSds (d : DState) (toks : List String) : DState × String :=
     | none => d
   match toks with
   | ["sub", c, r] =>
-    match c.toNat?, (if r == "w" then some Res.workload else if r == "r" then some Res.root else none) with
-    | some id, some res =>
-      if d.subs.any (·.id == id) then (d, "bad-op") else
-      let (d1, desc) := sdsGen d res
-      sdsSettle before { d1 with subs := d1.subs ++ [{ id := id, res := res, n := 1, last := desc }] }
-    | _, _ => (d, "bad-op")
+    match c.toNat? with
+    | some id =>
+      if d.subs.any (·.id == id) || !(r == "w" || r == "r" || r == "wr") then (d, "bad-op") else
+      -- the initial request is answered with all requested resources, in request order; an error ends the stream
+      let sb0 : Sub := { id := id, res := r }
+      let (d1, w) := if hasRes sb0 .workload then sdsGen d .workload else (d, some "")
+      match w with
+      | none => sdsSettle before { d1 with subs := d1.subs ++ [{ sb0 with state := "closed" }] }
+      | some wt =>
+        let (d2, rt) := if hasRes sb0 .root then sdsGen d1 .root else (d1, some "")
+        match rt with
+        | none => sdsSettle before { d2 with subs := d2.subs ++ [{ sb0 with state := "closed" }] }
+        | some rtt => sdsSettle before { d2 with subs := d2.subs ++ [{ sb0 with n := 1, lastW := wt, lastR := rtt }] }
+    | none => (d, "bad-op")
+  | ["unsub", c] =>
+    match c.toNat? with
+    | some id =>
+      if d.subs.any (fun x => x.id == id && x.state == "live" && !x.res.isEmpty) then
+        sdsSettle before (setSub d id fun x => { x with res := "" })
+      else (d, "bad-op")
+    | none => (d, "bad-op")
   | ["drop", c] =>
     match c.toNat? with
     | some id =>
-      if d.subs.any (fun x => x.id == id && x.live) then
-        sdsSettle before { d with subs := d.subs.map fun x => if x.id == id then { x with live := false } else x }
+      if d.subs.any (fun x => x.id == id && x.state == "live") then
+        sdsSettle before (setSub d id fun x => { x with state := "gone" })
       else (d, "bad-op")
     | none => (d, "bad-op")
   | ["rotate"] => sdsSettle before (fire cur)
@@ -304,6 +347,14 @@ def stepSds (d : DState) (toks : List String) : DState × String :=
     sdsSettle before (fire idx)
   | ["bundle", b] =>
     sdsSettle before { d with sys := seqOp d.sys d.next (.update (tokRoots b)) { now := now }, next := d.next + 1, tick := d.tick + 1 }
+  | ["cafail", k] =>
+    match k.toNat? with
+    | some n => if n > 100 then (d, "bad-op") else sdsSettle before { d with cafail := n }
+    | none => (d, "bad-op")
+  | ["caroot", x] =>
+    match tokRoots x with
+    | [r] => if r < 5 then sdsSettle before { d with caroot := r } else (d, "bad-op")
+    | _ => (d, "bad-op")
   | _ => (d, "bad-op")
 
 /-- `NewServer` warms the cache: GenerateSecret(default), then GenerateSecret(ROOTCA). -/
@@ -324,6 +375,9 @@ def stepD (d : DState) (toks : List String) : DState × String :=
   | "rot" :: _ => (d, stepRotate toks)
   | "rotobs" :: _ => (d, stepRotate toks)
   | "conc" :: _ => (d, stepConc toks)
+  -- `stress`: GenerateSecret || rotation tasks || bundle updates on the real client; what is checked there are
+  -- observables of `Inv` (true on every schedule by `inv_reachable`), so the model's answer is the constant
+  | ["stress", _, _, _] => (d, "ok calls>0 clears>0")
   | "rt" :: _ => (d, stepTimer toks)
   | ["cgen", r, kind] =>
     -- stream `citadel`: what the in-process CA's answer means to the agent: the trust root of a chain is
@@ -332,7 +386,7 @@ def stepD (d : DState) (toks : List String) : DState × String :=
     else if kind == "three" then stepCache d ["gen", r, "ok", "3600", "B", "-"]
     else if kind == "leafonly" || kind == "empty" || kind == "error" then stepCache d ["gen", r, "signerr"]
     else (d, "bad-op")
-  | ["qs", _, _] => (d, "lost=0")   -- in the model a pushed task can always be started (`spawn (.timer e)`)
+  | ["qs", _, _] => (d, "lost=0 burst:lost-delayed=0,lost=0,early=0")   -- in the model a pushed task can always be started (`spawn (.timer e)`)
   | _ => if d.sds then stepSds d toks else stepCache d toks
 
 end IstioModel.C18
